@@ -589,6 +589,7 @@ End OneEntry.
 Inductive stree :=
 | SFile (d : str) (pm : N) (mt : option Z)
 | SLink (target : str)
+| SSpecial (kind : N)
 | SDir (pm : N) (mt : option Z) (ks : list (str * stree)).
 
 Definition round_ns (m : option Z) : Z := sec_to_ns (match m with Some ns => ((ns + 500000000) / 1000000000)%Z | None => 0%Z end).
@@ -597,15 +598,21 @@ Fixpoint to_node (t : stree) : node :=
   match t with
   | SFile d pm mt => File d pm mt
   | SLink l => Link l
+  | SSpecial k => Special k
   | SDir pm mt ks => Dir pm mt (map (fun kc => (fst kc, to_node (snd kc))) ks)
   end.
+
+(* special files (fifos, sockets, devices) are skipped by Pack: they do not come back *)
+Definition nsp (kn : str * node) : bool := match snd kn with Special _ => false | _ => true end.
+Definition is_special (t : stree) : bool := match t with SSpecial _ => true | _ => false end.
 
 (* what Unpack has made of the tree before the deferred directory restores *)
 Fixpoint built (t : stree) : node :=
   match t with
   | SFile d pm mt => File d pm (Some (round_ns mt))
   | SLink l => Link l
-  | SDir pm mt ks => Dir 493 None (map (fun kc => (fst kc, built (snd kc))) ks)
+  | SSpecial k => Special k   (* marker only: filtered out of every directory *)
+  | SDir pm mt ks => Dir 493 None (filter nsp (map (fun kc => (fst kc, built (snd kc))) ks))
   end.
 
 (* ... and at the end: the tree itself, with times rounded to the second *)
@@ -613,7 +620,8 @@ Fixpoint rounded (t : stree) : node :=
   match t with
   | SFile d pm mt => File d pm (Some (round_ns mt))
   | SLink l => Link l
-  | SDir pm mt ks => Dir pm (Some (round_ns mt)) (map (fun kc => (fst kc, rounded (snd kc))) ks)
+  | SSpecial k => Special k
+  | SDir pm mt ks => Dir pm (Some (round_ns mt)) (filter nsp (map (fun kc => (fst kc, rounded (snd kc))) ks))
   end.
 
 Definition sec_of (m : option Z) : Z := match m with Some ns => ((ns + 500000000) / 1000000000)%Z | None => 0%Z end.
@@ -623,6 +631,7 @@ Fixpoint tentries (rel : list str) (t : stree) : list entry :=
   match t with
   | SFile d pm mt => [mkEntry (entry_name rel false) ty_reg [] pm (sec_of mt) d]
   | SLink l => [mkEntry (entry_name rel false) ty_sym l 511 0 []]
+  | SSpecial _ => []
   | SDir pm mt ks =>
       mkEntry (entry_name rel true) ty_dir [] pm (sec_of mt) [] ::
       (fix go (l : list (str * stree)) : list entry :=
@@ -641,6 +650,7 @@ Fixpoint tdirs (D rel : list str) (t : stree) : list (list str * entry) :=
   match t with
   | SFile _ _ _ => []
   | SLink _ => []
+  | SSpecial _ => []
   | SDir pm mt ks =>
       (D ++ rel, mkEntry (entry_name rel true) ty_dir [] pm (sec_of mt) []) ::
       (fix go (l : list (str * stree)) : list (list str * entry) :=
@@ -659,6 +669,7 @@ Fixpoint sheight (t : stree) : nat :=
   match t with
   | SFile _ _ _ => 0
   | SLink _ => 0
+  | SSpecial _ => 0
   | SDir _ _ ks => S (fold_right (fun kc acc => Nat.max (sheight (snd kc)) acc) 0 ks)
   end.
 
@@ -666,6 +677,7 @@ Fixpoint wf (t : stree) : Prop :=
   match t with
   | SFile _ _ _ => True
   | SLink _ => True
+  | SSpecial _ => True
   | SDir _ _ ks =>
       NoDup (map fst ks) /\
       (fix go (l : list (str * stree)) : Prop :=
@@ -688,6 +700,7 @@ Fixpoint links_ok (rel : list str) (t : stree) : Prop :=
   match t with
   | SFile _ _ _ => True
   | SLink l => link_stays (removelast rel) l = true
+  | SSpecial _ => True
   | SDir _ _ ks =>
       (fix go (l : list (str * stree)) : Prop :=
          match l with [] => True | kc :: r => links_ok (rel ++ [fst kc]) (snd kc) /\ go r end) ks
@@ -719,10 +732,40 @@ Qed.
 Definition bp (kc : str * stree) : str * node := (fst kc, built (snd kc)).
 Definition rp (kc : str * stree) : str * node := (fst kc, rounded (snd kc)).
 
-Lemma built_dir pm mt ks : built (SDir pm mt ks) = Dir 493 None (map bp ks).
+Definition bpk (ks : list (str * stree)) : list (str * node) := filter nsp (map bp ks).
+Definition rpk (ks : list (str * stree)) : list (str * node) := filter nsp (map rp ks).
+
+Lemma built_dir pm mt ks : built (SDir pm mt ks) = Dir 493 None (bpk ks).
 Proof. reflexivity. Qed.
-Lemma rounded_dir pm mt ks : rounded (SDir pm mt ks) = Dir pm (Some (round_ns mt)) (map rp ks).
+Lemma rounded_dir pm mt ks : rounded (SDir pm mt ks) = Dir pm (Some (round_ns mt)) (rpk ks).
 Proof. reflexivity. Qed.
+
+Lemma nsp_bp kc : nsp (bp kc) = negb (is_special (snd kc)).
+Proof. destruct kc as [k t]. destruct t; reflexivity. Qed.
+Lemma nsp_rp kc : nsp (rp kc) = negb (is_special (snd kc)).
+Proof. destruct kc as [k t]. destruct t; reflexivity. Qed.
+
+Lemma filter_app_ {A} (f : A -> bool) a b : filter f (a ++ b) = filter f a ++ filter f b.
+Proof. induction a as [|x a IH]; cbn; [reflexivity|]. destruct (f x); cbn; now rewrite IH. Qed.
+
+Lemma bpk_app a b : bpk (a ++ b) = bpk a ++ bpk b.
+Proof. unfold bpk. now rewrite map_app, filter_app_. Qed.
+Lemma rpk_app a b : rpk (a ++ b) = rpk a ++ rpk b.
+Proof. unfold rpk. now rewrite map_app, filter_app_. Qed.
+Lemma bpk_cons kc r : bpk (kc :: r) = if is_special (snd kc) then bpk r else bp kc :: bpk r.
+Proof. unfold bpk. cbn [map filter]. rewrite nsp_bp. now destruct (is_special (snd kc)). Qed.
+Lemma rpk_cons kc r : rpk (kc :: r) = if is_special (snd kc) then rpk r else rp kc :: rpk r.
+Proof. unfold rpk. cbn [map filter]. rewrite nsp_rp. now destruct (is_special (snd kc)). Qed.
+Lemma bpk_snoc done kc : bpk (done ++ [kc]) = bpk done ++ (if is_special (snd kc) then [] else [bp kc]).
+Proof. rewrite bpk_app, bpk_cons. now destruct (is_special (snd kc)). Qed.
+Lemma rpk_snoc done kc : rpk (done ++ [kc]) = rpk done ++ (if is_special (snd kc) then [] else [rp kc]).
+Proof. rewrite rpk_app, rpk_cons. now destruct (is_special (snd kc)). Qed.
+
+Lemma kid_filter_none (f : str * node -> bool) k l : kid k l = None -> kid k (filter f l) = None.
+Proof.
+  induction l as [|[k0 c0] l IH]; cbn; [reflexivity|]. destruct (str_eqb k0 k) eqn:E; [discriminate|].
+  intros H. destruct (f (k0, c0)); cbn; [rewrite E|]; now apply IH.
+Qed.
 
 Lemma kid_map_none (f : str * stree -> str * node) (Hf : forall kc, fst (f kc) = fst kc) k l :
   ~ In k (map fst l) -> kid k (map f l) = None.
@@ -750,35 +793,43 @@ Hypothesis HD : rdir fs0 (comps_of dst).
 Notation D := (comps_of dst).
 Notation atd := (at_dst fs0 (comps_of dst)).
 
-(* phase 1: the entries of a tree, unpacked at a fresh name below an existing directory *)
+Lemma kid_bpk_none k done : ~ In k (map fst done) -> kid k (bpk done) = None.
+Proof. intros H. apply kid_filter_none. now apply (kid_map_none bp (fun _ => eq_refl)). Qed.
+Lemma kid_rpk_none k done : ~ In k (map fst done) -> kid k (rpk done) = None.
+Proof. intros H. apply kid_filter_none. now apply (kid_map_none rp (fun _ => eq_refl)). Qed.
+
+(* phase 1: the entries of a tree, unpacked at a fresh name below an existing directory
+   (nothing at all for a special file) *)
 Lemma unpack_tree : forall h t, sheight t <= h -> wf t ->
   forall X pre x pmP mtP ks dirs,
     is_dir X = true -> get X pre = Some (Dir pmP mtP ks) -> kid x ks = None ->
     forallb seg_ok (pre ++ [x]) = true -> links_ok (pre ++ [x]) t ->
     unpack_entries true allow (atd X) dst dirs (tentries (pre ++ [x]) t)
-    = (atd (put X (pre ++ [x]) (built t)), dirs ++ tdirs D (pre ++ [x]) t, None).
+    = (atd (if is_special t then X else put X (pre ++ [x]) (built t)), dirs ++ tdirs D (pre ++ [x]) t, None).
 Proof.
   assert (Hleaf : forall t X pre x pmP mtP ks dirs, (forall pm mt ks', t <> SDir pm mt ks') ->
             is_dir X = true -> get X pre = Some (Dir pmP mtP ks) -> kid x ks = None ->
             forallb seg_ok (pre ++ [x]) = true -> links_ok (pre ++ [x]) t ->
             unpack_entries true allow (atd X) dst dirs (tentries (pre ++ [x]) t)
-            = (atd (put X (pre ++ [x]) (built t)), dirs ++ tdirs D (pre ++ [x]) t, None)).
+            = (atd (if is_special t then X else put X (pre ++ [x]) (built t)), dirs ++ tdirs D (pre ++ [x]) t, None)).
   { intros t X pre x pmP mtP ks dirs Hnd HX Hpar Hfresh Hsegs Hlk.
-    destruct t as [d pm mt|l|pm mt ks']; [| |exfalso; now apply (Hnd pm mt ks')].
-    - cbn [tentries unpack_entries].
+    destruct t as [d pm mt|l|k|pm mt ks']; [| | |exfalso; now apply (Hnd pm mt ks')].
+    - cbn [tentries unpack_entries is_special].
       rewrite (unpack_file_entry allow fs0 dst Hdst Hroot0 HD X pre x pmP mtP ks HX Hpar Hfresh Hsegs dirs
                  (mkEntry (entry_name (pre ++ [x]) false) ty_reg [] pm (sec_of mt) d) eq_refl eq_refl).
       cbn [tdirs]. now rewrite app_nil_r.
-    - cbn [tentries unpack_entries]. cbn [links_ok] in Hlk. rewrite removelast_snoc in Hlk.
+    - cbn [tentries unpack_entries is_special]. cbn [links_ok] in Hlk. rewrite removelast_snoc in Hlk.
       rewrite (unpack_link_entry allow fs0 dst Hdst Hroot0 HD X pre x pmP mtP ks HX Hpar Hfresh Hsegs dirs
                  (mkEntry (entry_name (pre ++ [x]) false) ty_sym l 511 0 []) eq_refl eq_refl Hlk).
-      cbn [tdirs]. now rewrite app_nil_r. }
+      cbn [tdirs]. now rewrite app_nil_r.
+    - cbn [tentries unpack_entries is_special tdirs]. now rewrite app_nil_r. }
   induction h as [|h IH]; intros t Hh Hwf X pre x pmP mtP ks dirs HX Hpar Hfresh Hsegs Hlk.
   - apply (Hleaf t X pre x pmP mtP ks dirs); auto. intros pm mt ks' ->. cbn in Hh. lia.
-  - destruct t as [d pm mt|l|pm mt ks'].
+  - destruct t as [d pm mt|l|k|pm mt ks'].
     + apply (Hleaf _ X pre x pmP mtP ks dirs); auto. discriminate.
     + apply (Hleaf _ X pre x pmP mtP ks dirs); auto. discriminate.
-    + apply wf_dir in Hwf as [Hnd Hwk]. apply links_ok_dir in Hlk.
+    + apply (Hleaf _ X pre x pmP mtP ks dirs); auto. discriminate.
+    + apply wf_dir in Hwf as [Hnd Hwk]. apply links_ok_dir in Hlk. cbn [is_special].
       set (rel := pre ++ [x]) in *.
       rewrite tentries_dir, tdirs_dir. cbn [unpack_entries].
       set (e := mkEntry (entry_name rel true) ty_dir [] pm (sec_of mt) []).
@@ -788,19 +839,19 @@ Proof.
       assert (HrX : rdir X pre) by (eapply rdir_of_get_dir; exact Hpar).
       assert (Hloop : forall l done dirs0,
                  ks' = done ++ l ->
-                 unpack_entries true allow (atd (put X rel (Dir 493 None (map bp done)))) dst dirs0 (kids_entries rel l)
-                 = (atd (put X rel (Dir 493 None (map bp (done ++ l)))), dirs0 ++ kids_dirs (comps_of dst) rel l, None)).
+                 unpack_entries true allow (atd (put X rel (Dir 493 None (bpk done)))) dst dirs0 (kids_entries rel l)
+                 = (atd (put X rel (Dir 493 None (bpk (done ++ l)))), dirs0 ++ kids_dirs (comps_of dst) rel l, None)).
       { induction l as [|kc r IHl]; intros done dirs0 Hks.
         - cbn [kids_entries unpack_entries kids_dirs]. now rewrite !app_nil_r.
         - cbn [kids_entries kids_dirs].
-          set (V := Dir 493 None (map bp done)).
+          set (V := Dir 493 None (bpk done)).
           assert (HXc : is_dir (put X rel V) = true).
           { unfold rel. destruct X; try discriminate. destruct pre; reflexivity. }
           assert (Hgc : get (put X rel V) rel = Some V).
           { apply get_put_same. left. unfold rel. now rewrite removelast_snoc. }
           assert (Hkc : In kc ks') by (rewrite Hks; apply in_or_app; right; now left).
-          assert (Hfr : kid (fst kc) (map bp done) = None).
-          { apply (kid_map_none bp (fun _ => eq_refl)). rewrite Hks, map_app in Hnd.
+          assert (Hfr : kid (fst kc) (bpk done) = None).
+          { apply kid_bpk_none. rewrite Hks, map_app in Hnd.
             apply NoDup_remove_2 in Hnd. intros Hin. apply Hnd. apply in_or_app. now left. }
           assert (Hwkc : seg_ok (fst kc) = true /\ wf (snd kc)).
           { clear - Hwk Hkc. induction ks' as [|a q IHq]; [destruct Hkc|]. cbn in Hwk. destruct Hwk as (H1 & H2 & H3).
@@ -808,12 +859,14 @@ Proof.
           assert (Hsk : forallb seg_ok (rel ++ [fst kc]) = true).
           { rewrite forallb_app, Hsegs. cbn. now rewrite (proj1 Hwkc). }
           rewrite (unpack_entries_app true allow dst _ (kids_entries rel r) _ _ _ _
-                     (IH (snd kc) (sheight_kid _ _ _ _ _ Hh Hkc) (proj2 Hwkc) (put X rel V) rel (fst kc) 493%N None (map bp done) dirs0 HXc Hgc Hfr Hsk
+                     (IH (snd kc) (sheight_kid _ _ _ _ _ Hh Hkc) (proj2 Hwkc) (put X rel V) rel (fst kc) 493%N None (bpk done) dirs0 HXc Hgc Hfr Hsk
                          (links_ok_kids_in rel ks' kc Hlk Hkc))).
-          assert (Hput : put (put X rel V) (rel ++ [fst kc]) (built (snd kc)) = put X rel (Dir 493 None (map bp (done ++ [kc])))).
-          { rewrite (put_app _ rel [fst kc] _ V Hgc).
+          assert (Hput : (if is_special (snd kc) then put X rel V else put (put X rel V) (rel ++ [fst kc]) (built (snd kc)))
+                         = put X rel (Dir 493 None (bpk (done ++ [kc])))).
+          { rewrite bpk_snoc. destruct (is_special (snd kc)); [now rewrite app_nil_r|].
+            rewrite (put_app _ rel [fst kc] _ V Hgc).
             unfold rel at 1 2. rewrite (put_put_fresh X pre x V _ _ _ _ Hpar Hfresh). fold rel.
-            unfold V. rewrite (put_child_fresh _ _ _ _ _ Hfr). rewrite map_app. reflexivity. }
+            unfold V. rewrite (put_child_fresh _ _ _ _ _ Hfr). reflexivity. }
           rewrite Hput.
           rewrite (IHl (done ++ [kc]) _ ltac:(rewrite Hks, <- app_assoc; reflexivity)).
           rewrite <- !app_assoc. reflexivity. }
@@ -877,28 +930,28 @@ Proof.
 Qed.
 
 Lemma kid_mixed (done : list (str * stree)) kc (r : list (str * stree)) :
-  ~ In (fst kc) (map fst done) ->
-  kid (fst kc) (map rp done ++ bp kc :: map bp r) = Some (built (snd kc)).
+  ~ In (fst kc) (map fst done) -> is_special (snd kc) = false ->
+  kid (fst kc) (rpk done ++ bpk (kc :: r)) = Some (built (snd kc)).
 Proof.
-  intros Hn. apply (kid_middle (fst kc) (map rp done) (built (snd kc)) (map bp r)).
-  now apply (kid_map_none rp (fun _ => eq_refl)).
+  intros Hn Hs. rewrite bpk_cons, Hs. apply (kid_middle (fst kc) (rpk done) (built (snd kc)) (bpk r)).
+  now apply kid_rpk_none.
 Qed.
 
 (* phase 2: the deferred restores of the directories of a tree turn [built] into [rounded] *)
-Lemma restore_tree : forall h t, sheight t <= h -> wf t ->
+Lemma restore_tree : forall h t, sheight t <= h -> wf t -> is_special t = false ->
   forall X pre x more,
     is_dir X = true -> rdir X pre -> forallb seg_ok (pre ++ [x]) = true ->
     get X (pre ++ [x]) = Some (built t) ->
     restore_dirs (atd X) (tdirs D (pre ++ [x]) t ++ more)
     = restore_dirs (atd (put X (pre ++ [x]) (rounded t))) more.
 Proof.
-  induction h as [|h IH]; intros t Hh Hwf X pre x more HX HrX Hsegs Hg.
-  - destruct t as [d pm mt|l|pm mt ks']; [| |cbn in Hh; lia].
+  induction h as [|h IH]; intros t Hh Hwf Hns X pre x more HX HrX Hsegs Hg.
+  - destruct t as [d pm mt|l|k|pm mt ks']; [| |discriminate|cbn in Hh; lia].
     + cbn [tdirs app]. change (rounded (SFile d pm mt)) with (built (SFile d pm mt)).
       now rewrite (put_get_same _ _ _ Hg).
     + cbn [tdirs app]. change (rounded (SLink l)) with (built (SLink l)).
       now rewrite (put_get_same _ _ _ Hg).
-  - destruct t as [d pm mt|l|pm mt ks'].
+  - destruct t as [d pm mt|l|k|pm mt ks']; [| |discriminate|].
     + cbn [tdirs app]. change (rounded (SFile d pm mt)) with (built (SFile d pm mt)).
       now rewrite (put_get_same _ _ _ Hg).
     + cbn [tdirs app]. change (rounded (SLink l)) with (built (SLink l)).
@@ -912,38 +965,46 @@ Proof.
       { intros V W. apply put_put_same. rewrite Hg. discriminate. }
       assert (Hloop : forall l done,
                  ks' = done ++ l ->
-                 restore_dirs (atd (put X rel (Dir pm (Some (round_ns mt)) (map rp done ++ map bp l)))) (kids_dirs D rel l ++ more)
-                 = restore_dirs (atd (put X rel (Dir pm (Some (round_ns mt)) (map rp (done ++ l))))) more).
+                 restore_dirs (atd (put X rel (Dir pm (Some (round_ns mt)) (rpk done ++ bpk l)))) (kids_dirs D rel l ++ more)
+                 = restore_dirs (atd (put X rel (Dir pm (Some (round_ns mt)) (rpk (done ++ l))))) more).
       { induction l as [|kc r IHl]; intros done Hks.
-        - cbn [kids_dirs app map]. now rewrite !app_nil_r.
-        - cbn [kids_dirs map]. rewrite <- app_assoc.
-          set (V := Dir pm (Some (round_ns mt)) (map rp done ++ bp kc :: map bp r)).
-          assert (HXc : is_dir (put X rel V) = true).
-          { unfold rel. destruct X; try discriminate. destruct pre; reflexivity. }
-          assert (Hgc : get (put X rel V) rel = Some V).
-          { apply get_put_same. left. unfold rel. now rewrite removelast_snoc. }
-          assert (Hrc : rdir (put X rel V) rel).
-          { eapply rdir_of_get_dir. exact Hgc. }
+        - cbn [kids_dirs app]. unfold bpk at 1. cbn [map filter]. now rewrite !app_nil_r.
+        - cbn [kids_dirs]. rewrite <- app_assoc.
           assert (Hkc : In kc ks') by (rewrite Hks; apply in_or_app; right; now left).
           assert (Hnin : ~ In (fst kc) (map fst done)).
           { rewrite Hks, map_app in Hnd. apply NoDup_remove_2 in Hnd. intros Hin. apply Hnd. apply in_or_app. now left. }
           assert (Hwkc : seg_ok (fst kc) = true /\ wf (snd kc)).
           { clear - Hwk Hkc. induction ks' as [|a q IHq]; [destruct Hkc|]. cbn in Hwk. destruct Hwk as (H1 & H2 & H3).
             destruct Hkc as [->|Hin]; [auto|now apply IHq]. }
+          destruct (is_special (snd kc)) eqn:Esp.
+          { (* a special file: not there, nothing queued *)
+            assert (Htd : tdirs D (rel ++ [fst kc]) (snd kc) = []) by (destruct (snd kc); try discriminate; reflexivity).
+            rewrite Htd. cbn [app]. rewrite bpk_cons, Esp.
+            assert (E1 : rpk (done ++ [kc]) = rpk done) by (now rewrite rpk_snoc, Esp, app_nil_r).
+            rewrite <- E1. rewrite (IHl (done ++ [kc]) ltac:(rewrite Hks, <- app_assoc; reflexivity)).
+            now rewrite <- app_assoc. }
+          set (V := Dir pm (Some (round_ns mt)) (rpk done ++ bpk (kc :: r))).
+          assert (HXc : is_dir (put X rel V) = true).
+          { unfold rel. destruct X; try discriminate. destruct pre; reflexivity. }
+          assert (Hgc : get (put X rel V) rel = Some V).
+          { apply get_put_same. left. unfold rel. now rewrite removelast_snoc. }
+          assert (Hrc : rdir (put X rel V) rel).
+          { eapply rdir_of_get_dir. exact Hgc. }
           assert (Hsk : forallb seg_ok (rel ++ [fst kc]) = true).
           { rewrite forallb_app, Hsegs. cbn. now rewrite (proj1 Hwkc). }
           assert (Hgk : get (put X rel V) (rel ++ [fst kc]) = Some (built (snd kc))).
-          { rewrite get_app, Hgc. unfold V. cbn [get]. now rewrite (kid_mixed done kc r Hnin). }
-          rewrite (IH (snd kc) (sheight_kid _ _ _ _ _ Hh Hkc) (proj2 Hwkc) (put X rel V) rel (fst kc) _ HXc Hrc Hsk Hgk).
+          { rewrite get_app, Hgc. unfold V. cbn [get]. now rewrite (kid_mixed done kc r Hnin Esp). }
+          rewrite (IH (snd kc) (sheight_kid _ _ _ _ _ Hh Hkc) (proj2 Hwkc) Esp (put X rel V) rel (fst kc) _ HXc Hrc Hsk Hgk).
           assert (Hput : put (put X rel V) (rel ++ [fst kc]) (rounded (snd kc))
-                         = put X rel (Dir pm (Some (round_ns mt)) (map rp (done ++ [kc]) ++ map bp r))).
-          { rewrite (put_app _ rel [fst kc] _ V Hgc), Hpp. unfold V.
-            rewrite (put_child_replace _ _ (map rp done) (fst kc) (built (snd kc)) (map bp r) (rounded (snd kc))).
-            - rewrite map_app, <- app_assoc. reflexivity.
-            - now apply (kid_map_none rp (fun _ => eq_refl)). }
+                         = put X rel (Dir pm (Some (round_ns mt)) (rpk (done ++ [kc]) ++ bpk r))).
+          { rewrite (put_app _ rel [fst kc] _ V Hgc), Hpp. unfold V. rewrite bpk_cons, Esp.
+            rewrite (put_child_replace _ _ (rpk done) (fst kc) (built (snd kc)) (bpk r) (rounded (snd kc)))
+              by (now apply kid_rpk_none).
+            rewrite rpk_snoc, Esp, <- app_assoc. reflexivity. }
           rewrite Hput. rewrite (IHl (done ++ [kc]) ltac:(rewrite Hks, <- app_assoc; reflexivity)).
           now rewrite <- app_assoc. }
-      pose proof (Hloop ks' [] eq_refl) as HL. cbn [map app] in HL. rewrite HL. now rewrite rounded_dir.
+      pose proof (Hloop ks' [] eq_refl) as HL. cbn [app] in HL. unfold rpk at 1 in HL. cbn [map filter app] in HL.
+      rewrite HL. now rewrite rounded_dir.
 Qed.
 End Restore.
 
@@ -966,60 +1027,74 @@ Qed.
 
 Lemma root_loop1 : forall l done mtc dirs0,
   NoDup (map fst (done ++ l)) -> wf_kids l -> links_ok_kids [] l ->
-  unpack_entries true allow (atd (Dir pmD mtc (map bp done))) dst dirs0 (kids_entries [] l)
-  = (atd (Dir pmD (match l with [] => mtc | _ => None end) (map bp (done ++ l))), dirs0 ++ kids_dirs D [] l, None).
+  unpack_entries true allow (atd (Dir pmD mtc (bpk done))) dst dirs0 (kids_entries [] l)
+  = (atd (Dir pmD (match bpk l with [] => mtc | _ => None end) (bpk (done ++ l))), dirs0 ++ kids_dirs D [] l, None).
 Proof.
   induction l as [|kc r IH]; intros done mtc dirs0 Hnd Hwk Hlk.
   - cbn [kids_entries unpack_entries kids_dirs]. now rewrite !app_nil_r.
   - cbn [kids_entries kids_dirs]. cbn in Hwk. destruct Hwk as (Hs & Hw & Hwr). cbn in Hlk. destruct Hlk as (Hl1 & Hlr).
-    set (X := Dir pmD mtc (map bp done)).
-    assert (Hfr : kid (fst kc) (map bp done) = None).
-    { apply (kid_map_none bp (fun _ => eq_refl)). rewrite map_app in Hnd. apply NoDup_remove_2 in Hnd.
+    set (X := Dir pmD mtc (bpk done)).
+    assert (Hfr : kid (fst kc) (bpk done) = None).
+    { apply kid_bpk_none. rewrite map_app in Hnd. apply NoDup_remove_2 in Hnd.
       intros Hin. apply Hnd. apply in_or_app. now left. }
     assert (Hsk : forallb seg_ok ([] ++ [fst kc]) = true) by (cbn; now rewrite Hs).
     rewrite (unpack_entries_app true allow dst _ (kids_entries [] r) _ _ _ _
-               (unpack_tree allow fs0 dst Hdst Hroot0 HD (sheight (snd kc)) (snd kc) (le_n _) Hw X [] (fst kc) pmD mtc (map bp done) dirs0 eq_refl eq_refl Hfr Hsk Hl1)).
-    cbn [app]. unfold X. rewrite (put_child_fresh _ _ _ _ _ Hfr).
-    replace (map bp done ++ [(fst kc, built (snd kc))]) with (map bp (done ++ [kc])) by (now rewrite map_app).
-    rewrite (IH (done ++ [kc]) None _ ltac:(now rewrite <- app_assoc) Hwr Hlr).
-    rewrite <- !app_assoc. cbn [app]. destruct r; reflexivity.
+               (unpack_tree allow fs0 dst Hdst Hroot0 HD (sheight (snd kc)) (snd kc) (le_n _) Hw X [] (fst kc) pmD mtc (bpk done) dirs0 eq_refl eq_refl Hfr Hsk Hl1)).
+    cbn [app]. rewrite bpk_cons. destruct (is_special (snd kc)) eqn:Esp.
+    + unfold X. assert (E1 : bpk (done ++ [kc]) = bpk done) by (now rewrite bpk_snoc, Esp, app_nil_r).
+      rewrite <- E1. rewrite (IH (done ++ [kc]) mtc _ ltac:(now rewrite <- app_assoc) Hwr Hlr).
+      rewrite <- !app_assoc. reflexivity.
+    + unfold X. rewrite (put_child_fresh _ _ _ _ _ Hfr).
+      replace (bpk done ++ [(fst kc, built (snd kc))]) with (bpk (done ++ [kc])) by (now rewrite bpk_snoc, Esp).
+      rewrite (IH (done ++ [kc]) None _ ltac:(now rewrite <- app_assoc) Hwr Hlr).
+      rewrite <- !app_assoc. cbn [app]. destruct (bpk r); reflexivity.
 Qed.
 
 Lemma root_loop2 : forall l done mtc more,
   NoDup (map fst (done ++ l)) -> wf_kids l ->
-  restore_dirs (atd (Dir pmD mtc (map rp done ++ map bp l))) (kids_dirs D [] l ++ more)
-  = restore_dirs (atd (Dir pmD mtc (map rp (done ++ l)))) more.
+  restore_dirs (atd (Dir pmD mtc (rpk done ++ bpk l))) (kids_dirs D [] l ++ more)
+  = restore_dirs (atd (Dir pmD mtc (rpk (done ++ l)))) more.
 Proof.
   induction l as [|kc r IH]; intros done mtc more Hnd Hwk.
-  - cbn [kids_dirs app map]. now rewrite !app_nil_r.
-  - cbn [kids_dirs map]. rewrite <- app_assoc. cbn in Hwk. destruct Hwk as (Hs & Hw & Hwr).
-    set (X := Dir pmD mtc (map rp done ++ bp kc :: map bp r)).
+  - cbn [kids_dirs app]. unfold bpk at 1. cbn [map filter]. now rewrite !app_nil_r.
+  - cbn [kids_dirs]. rewrite <- app_assoc. cbn in Hwk. destruct Hwk as (Hs & Hw & Hwr).
     assert (Hnin : ~ In (fst kc) (map fst done)).
     { rewrite map_app in Hnd. apply NoDup_remove_2 in Hnd. intros Hin. apply Hnd. apply in_or_app. now left. }
+    destruct (is_special (snd kc)) eqn:Esp.
+    { assert (Htd : tdirs D ([] ++ [fst kc]) (snd kc) = []) by (destruct (snd kc); try discriminate; reflexivity).
+      rewrite Htd. cbn [app]. rewrite bpk_cons, Esp.
+      assert (E1 : rpk (done ++ [kc]) = rpk done) by (now rewrite rpk_snoc, Esp, app_nil_r).
+      rewrite <- E1. rewrite (IH (done ++ [kc]) mtc more ltac:(now rewrite <- app_assoc) Hwr).
+      now rewrite <- app_assoc. }
+    set (X := Dir pmD mtc (rpk done ++ bpk (kc :: r))).
     assert (Hsk : forallb seg_ok ([] ++ [fst kc]) = true) by (cbn; now rewrite Hs).
     assert (Hgk : get X ([] ++ [fst kc]) = Some (built (snd kc))).
-    { unfold X. cbn [app get]. now rewrite (kid_mixed done kc r Hnin). }
-    rewrite (restore_tree fs0 dst Hdst Hroot0 HD (sheight (snd kc)) (snd kc) (le_n _) Hw X [] (fst kc) _ eq_refl I Hsk Hgk).
-    cbn [app]. unfold X.
-    rewrite (put_child_replace _ _ (map rp done) (fst kc) (built (snd kc)) (map bp r) (rounded (snd kc)))
-      by (now apply (kid_map_none rp (fun _ => eq_refl))).
-    replace (map rp done ++ (fst kc, rounded (snd kc)) :: map bp r) with (map rp (done ++ [kc]) ++ map bp r)
-      by (rewrite map_app, <- app_assoc; reflexivity).
+    { unfold X. cbn [app get]. now rewrite (kid_mixed done kc r Hnin Esp). }
+    rewrite (restore_tree fs0 dst Hdst Hroot0 HD (sheight (snd kc)) (snd kc) (le_n _) Hw Esp X [] (fst kc) _ eq_refl I Hsk Hgk).
+    cbn [app]. unfold X. rewrite bpk_cons, Esp.
+    rewrite (put_child_replace _ _ (rpk done) (fst kc) (built (snd kc)) (bpk r) (rounded (snd kc)))
+      by (now apply kid_rpk_none).
+    replace (rpk done ++ (fst kc, rounded (snd kc)) :: bpk r) with (rpk (done ++ [kc]) ++ bpk r)
+      by (rewrite rpk_snoc, Esp, <- app_assoc; reflexivity).
     rewrite (IH (done ++ [kc]) mtc more ltac:(now rewrite <- app_assoc) Hwr).
     now rewrite <- app_assoc.
 Qed.
 
-(* Unpacking the archive of a tree into an empty directory yields the tree, times rounded *)
+(* Unpacking the archive of a tree into an empty directory yields the tree, times rounded,
+   special files left out *)
 Theorem unpack_tree_entries mtD ks :
   get fs0 D = Some (Dir pmD mtD []) -> NoDup (map fst ks) -> wf_kids ks -> links_ok_kids [] ks ->
   unpack true allow fs0 dst (kids_entries [] ks)
-  = (put fs0 D (Dir pmD (match ks with [] => mtD | _ => None end) (map rp ks)), ROk).
+  = (put fs0 D (Dir pmD (match rpk ks with [] => mtD | _ => None end) (rpk ks)), ROk).
 Proof.
   intros Hg Hnd Hwk Hlk. unfold unpack.
-  assert (Hfs : fs0 = atd (Dir pmD mtD (map bp []))).
-  { unfold at_dst. cbn [map]. symmetry. now apply put_get_same. }
+  assert (Hfs : fs0 = atd (Dir pmD mtD (bpk []))).
+  { unfold at_dst. cbn. symmetry. now apply put_get_same. }
   rewrite Hfs at 1. rewrite (root_loop1 ks [] mtD [] Hnd Hwk Hlk). cbn [app].
-  pose proof (root_loop2 ks [] (match ks with [] => mtD | _ => None end) [] Hnd Hwk) as H2.
-  cbn [map app] in H2. rewrite app_nil_r in H2. rewrite H2. reflexivity.
+  pose proof (root_loop2 ks [] (match bpk ks with [] => mtD | _ => None end) [] Hnd Hwk) as H2.
+  unfold rpk at 1 in H2. cbn [map filter app] in H2. rewrite app_nil_r in H2. rewrite H2.
+  assert (He : (match bpk ks with [] => mtD | _ => None end) = (match rpk ks with [] => mtD | _ => None end)).
+  { clear. induction ks as [|kc r IH]; [reflexivity|]. rewrite bpk_cons, rpk_cons. destruct (is_special (snd kc)); [exact IH|reflexivity]. }
+  now rewrite He.
 Qed.
 End Whole.
